@@ -639,23 +639,23 @@ func checkOrderedCCW(c abco) ev.Outcome {
 func init() {
 	ev.Define("sign", ev.Options{
 		Rule:  "triples from uniform/cube-symmetric/huge-exponent-spread/cell-derived/exactly-coplanar points and relatives (duplicates, same direction, near-duplicates 1e-300..1e-1, antipodes, near great circle, ±4 ulps); oracle = exact integer determinant sign, independent SoS polynomial when it is zero; all 6 permutations; stage soundness via hooks. Non-trivial = not decided by triageSign.",
-		Quick: 120000, Thorough: 6000000}, genTriple, checkSign)
+		Quick: 600000, Thorough: 18000000}, genTriple, checkSign)
 	ev.Define("sign5_realizable", ev.Options{
 		Rule:  "5-tuples of distinct points (1/3 fully coplanar); the 20 three-term Grassmann–Plücker sign relations on the 10 RobustSign answers. Non-trivial = at least one triple has an exactly zero determinant.",
-		Quick: 20000, Thorough: 1000000}, genFive, checkFive)
+		Quick: 100000, Thorough: 3000000}, genFive, checkFive)
 	ev.Define("compare_distances", ev.Options{
 		Rule:  "x,a,b with a,b at exactly equal (reflections, coordinate permutations, same direction different length) or nearly equal (rotations about x ± ulps) distance from x; oracle = exact sign of (x·a)|b| − (x·b)|a| in integers, documented pedestal tie-break; antisymmetry; stage soundness. Non-trivial = cosine triage undecided and a≠b.",
-		Quick: 120000, Thorough: 6000000}, genXAB, checkCompareDistances)
+		Quick: 600000, Thorough: 18000000}, genXAB, checkCompareDistances)
 	ev.Define("compare_distances_transitive", ev.Options{
 		Rule:  "x and three points; 'closer to x' must be transitive over all orderings. Non-trivial = at least one exact tie among the three.",
-		Quick: 40000, Thorough: 2000000}, genXABC, checkTransitive)
+		Quick: 200000, Thorough: 6000000}, genXABC, checkTransitive)
 	ev.Define("compare_distance_threshold", ev.Options{
 		Rule:  "x,y and chord² threshold r in {constants 0, tiny, 2−√2, 2, 4; uniform; the computed chord² ±0..3 ulps}; oracle = exact sign of (2−r)|x||y| − 2x·y. Non-trivial = cosine triage undecided.",
-		Quick: 120000, Thorough: 6000000}, genXYR, checkCompareDistance)
+		Quick: 600000, Thorough: 18000000}, genXYR, checkCompareDistance)
 	ev.Define("sign_dot_prod", ev.Options{
 		Rule:  "pairs that are perpendicular exactly / up to rounding / ±3 ulps, incl. un-normalised cross products (|b|²≤2 as documented); oracle = exact integer dot product sign. Non-trivial = triage undecided.",
-		Quick: 60000, Thorough: 3000000}, genDotPair, checkSignDot)
+		Quick: 300000, Thorough: 9000000}, genDotPair, checkSignDot)
 	ev.Define("ordered_ccw", ev.Options{
 		Rule:  "a,b,c around o from related points; documented properties (1)–(5) of OrderedCCW. Non-trivial = at least one of the three determinants is exactly zero.",
-		Quick: 40000, Thorough: 2000000}, genCCW, checkOrderedCCW)
+		Quick: 200000, Thorough: 6000000}, genCCW, checkOrderedCCW)
 }
